@@ -41,6 +41,18 @@ MAT_EDGES = [("DistributedSendRefHolder", "send"), ("LoopyCall", "bind"), ("Call
 # graphs
 # --------------------------------------------------------------------------
 
+try:
+    import dataclasses as _dc
+    from pytools.tag import Tag as _PtTag
+
+    @_dc.dataclass(frozen=True)
+    class VLabelTag(_PtTag):
+        """a non-unique user tag with a field: one node may carry several"""
+        label: str
+except Exception:   # noqa: BLE001
+    VLabelTag = None
+
+
 def build_graph(spec: dict):
     fam = spec["family"]
     if fam == "tagged_ladder":
@@ -69,6 +81,19 @@ def build_graph(spec: dict):
                             duplicates=spec.get("rdup", False), tags=(VFooTag(), ImplStored()),
                             n_outputs=spec.get("n_outputs"))
         return c13.reflective_dedup(g) if spec.get("dedup") else g
+    if fam == "multi_tags":
+        # nodes carrying SEVERAL tags of one (non-unique) type, next to nodes with one and with none
+        import numpy as np
+        import pytato as pt
+        from ..gen.kinds import VFooTag
+        x = pt.make_placeholder("x", (3,), np.float64)
+        y = pt.make_placeholder("y", (3,), np.float64)
+        a = (x + y).tagged((VLabelTag("a"), VLabelTag("b")))
+        b = (a * 2).tagged((VLabelTag("a"), VFooTag()))
+        c = (b - x).tagged((VLabelTag("c"), VLabelTag("d"), VLabelTag("e"), VFooTag()))
+        d = pt.sin(c).tagged(VFooTag())
+        e = (d + a).tagged(VLabelTag("a"))
+        return pt.make_dict_of_named_arrays({"o": e + y, "p": c * d})
     if fam == "repeated_operands":
         import numpy as np
         import pytato as pt
@@ -104,6 +129,7 @@ def graph_specs(ctx) -> list[dict]:
     specs += [{"family": "ladder", "depth": depths[0], "dup": True}, {"family": "diamond", "dup": True}]
     # ONE object in several operand slots of ONE user (uses are counted with multiplicity)
     specs += [{"family": "repeated_operands", "variant": k} for k in range(6)]
+    specs += [{"family": "multi_tags"}]
     # nested, shared functions in every visiting order (counts and call sites vs the reflective walk)
     specs += [sp for sp in c13.nested_specs(ctx)]
     specs += [dict(sp, tag="VFooTag") for sp in c13.nested_specs(ctx)[1:4]]
@@ -697,7 +723,9 @@ def check_tagcounts(ctx, t: ch.Tables, cases: list[GraphCase]):
     queries, pend = [], []
     n = dis = 0
     walk = walk_exclusions(t, "TagCountMapper")
-    wants = [((VFooTag,), ["VFooTag"]), ((ImplStored,), ["ImplStored"]), ((VFooTag, ImplStored), ["VFooTag", "ImplStored"])]
+    wants = [((VFooTag,), ["VFooTag"]), ((ImplStored,), ["ImplStored"]), ((VFooTag, ImplStored), ["VFooTag", "ImplStored"]),
+             ((VLabelTag,), ["VLabelTag"]), ((VLabelTag, VFooTag), ["VLabelTag", "VFooTag"]),
+             ((VLabelTag, VFooTag, ImplStored), ["VLabelTag", "VFooTag", "ImplStored"])]
     reported = set()
     for case in cases:
         if case.dups:
